@@ -76,7 +76,9 @@ var stateNames = []string{"missing", "partial", "complete"}
 
 // genDay draws the blocks of a day in the given state. Complete days hold a block every five
 // minutes (288 blocks, 0-1 flows each); partial days hold 1-5 blocks, none within two hours of
-// either end of the day, so the classification never depends on the tolerance arithmetic.
+// either end of the day - or (one in four each) are covered from midnight but end at least four
+// hours early, or reach midnight but start at least two hours late, with blocks spaced unevenly -,
+// so the classification never depends on the tolerance arithmetic.
 func genDay(t *sim.Tape, day int64, state int, tag byte) []model.Block {
 	var out []model.Block
 	mk := func(ts int64) model.Block {
@@ -102,15 +104,35 @@ func genDay(t *sim.Tape, day int64, state int, tag byte) []model.Block {
 	case partial:
 		n := 1 + t.Draw(5)
 		seen := map[int64]bool{}
-		for i := 0; i < n; i++ {
-			ts := day + 7200 + 300*int64(t.Draw(240)) // 02:00 .. 22:00
-			if t.Draw(3) == 0 {
-				ts = day + 7200 + 300*int64(t.Draw(4)) // small pool: collisions between the two sides
-			}
+		add := func(ts int64) {
 			if !seen[ts] {
 				seen[ts] = true
 				out = append(out, mk(ts))
 			}
+		}
+		lo, span := int64(7200), 240 // 02:00 .. 22:00
+		switch t.Draw(4) {
+		case 2:
+			// covered from midnight, but ending hours before the end of the day: a block at the
+			// start of the day, nothing for at least four hours, the last two blocks five minutes
+			// apart and not later than 19:55
+			add(day + 300*int64(t.Draw(2)))
+			x := day + 300*int64(180+t.Draw(60))
+			add(x)
+			add(x - 300)
+			lo, span = 14400, int((x-day-14400)/300)
+		case 3:
+			// covered up to midnight, but starting hours after the start of the day
+			add(day + 86400 - 300)
+			add(day + 86400 - 600)
+			lo, span = 7200, 240
+		}
+		for i := 0; i < n; i++ {
+			ts := day + lo + 300*int64(t.Draw(span))
+			if t.Draw(3) == 0 {
+				ts = day + lo + 300*int64(t.Draw(4)) // small pool: collisions between the two sides
+			}
+			add(ts)
 		}
 		sort.Slice(out, func(i, j int) bool { return out[i].TS < out[j].TS })
 	}
